@@ -163,7 +163,7 @@ def func_code(names, return_annotation, annotations, posoarg_n,
         code.append(f'@modifiers.annotate({return_annotation})')
     elif annotations:
         annotation_args = ', '.join(
-            f'{key}={value}'.format(key, value)
+            f'{key}={value}'
             for key, value in annotations.items())
         code.append(f'@modifiers.annotate({annotation_args})')
     if posoarg_n:
